@@ -3,6 +3,7 @@ package checks
 import (
 	"context"
 	"fmt"
+	"strings"
 
 	"github.com/bartossh/Computantis/src/accountant"
 	"github.com/bartossh/Computantis/src/spice"
@@ -67,6 +68,16 @@ func c10Genesis(w *core.WorkerCtx) {
 	forbidden["genesis-wallet-spends"] = ledger.ForgeVertex(world.Sealers[1], t2, tip, tip, wgt+1, world.Now())
 	t3 := world.NewTrx(world.Users[1], world.Users[2].Addr, spice.Melange{}, nil)
 	forbidden["empty-transaction"] = ledger.ForgeVertex(world.Sealers[1], t3, tip, tip, wgt+1, world.Now())
+	// forbidden vertices that hang on nothing (zero parent hashes): a second root of the loaded graph
+	var zero ledger.H
+	t4 := world.NewTrx(world.Sealers[0], world.Users[1].Addr, spice.Melange{Currency: 1}, nil)
+	forbidden["self-sealed/second-root"] = ledger.ForgeVertex(world.Sealers[0], t4, zero, zero, 0, world.Now())
+	t5 := world.NewTrx(world.Sealers[1], world.Users[2].Addr, spice.Melange{Currency: 2}, nil)
+	forbidden["self-sealed/left-parent-zero"] = ledger.ForgeVertex(world.Sealers[1], t5, zero, tip, wgt+1, world.Now())
+	t6 := world.NewTrx(genActor, world.Users[1].Addr, spice.Melange{Currency: 1}, nil)
+	forbidden["genesis-wallet-spends/second-root"] = ledger.ForgeVertex(world.Sealers[1], t6, zero, zero, 0, world.Now())
+	t7 := world.NewTrx(world.Users[1], world.Users[2].Addr, spice.Melange{}, nil)
+	forbidden["empty-transaction/second-root"] = ledger.ForgeVertex(world.Sealers[0], t7, zero, zero, 0, world.Now())
 	for rule, fv := range forbidden {
 		fv := fv
 		st := append(append([]*accountant.Vertex{}, stream...), &fv)
@@ -79,10 +90,10 @@ func c10Genesis(w *core.WorkerCtx) {
 		if loaded {
 			ns, _ := ledger.TakeSnap(n.Book)
 			if ns != nil {
-				if _, ok := ns.Live[fv.Hash]; ok && rule != "genesis-wallet-spends" {
+				if _, ok := ns.Live[fv.Hash]; ok && !strings.HasPrefix(rule, "genesis-wallet-spends") {
 					world.Violate("C10", "present/"+rule+"/sync", fmt.Sprintf("a node that reports loaded holds a %s vertex obtained through sync", rule))
 				}
-				if _, ok := ns.Live[fv.Hash]; ok && rule == "genesis-wallet-spends" {
+				if _, ok := ns.Live[fv.Hash]; ok && strings.HasPrefix(rule, "genesis-wallet-spends") {
 					// the loader has no rule for it; the vertex is a spend of the genesis wallet in a synced ledger
 					world.Violate("C10", "present/"+rule+"/sync", "a node that reports loaded holds a vertex issued by the genesis wallet, obtained through sync")
 				}
